@@ -60,14 +60,14 @@ func (t TStruct) Var(xs ...int) int {
 }
 func (t TStruct) Cat(p string, xs ...string) string                     { return p + strings.Join(xs, "") }
 func (t TStruct) WithCtx(ctx *pongo2.ExecutionContext, s string) string { return "ctx:" + s }
-func (t TStruct) Ctx3(ctx *pongo2.ExecutionContext, a, b, c int) int { return a*100 + b*10 + c }
+func (t TStruct) Ctx3(ctx *pongo2.ExecutionContext, a, b, c int) int    { return a*100 + b*10 + c }
 func (t TStruct) Ctx5(ctx *pongo2.ExecutionContext, a, b, c, d, e int) int {
 	return a*10000 + b*1000 + c*100 + d*10 + e
 }
-func (t TStruct) Sum3(a, b, c int) int { return a + b + c }
-func (t TStruct) ValArg(v *pongo2.Value) *pongo2.Value                  { return pongo2.AsValue(v.String() + "!") }
-func (t TStruct) Fail() (string, error)                                 { return "", errors.New("failed") }
-func (t TStruct) Two() (string, error)                                  { return "two", nil }
+func (t TStruct) Sum3(a, b, c int) int                 { return a + b + c }
+func (t TStruct) ValArg(v *pongo2.Value) *pongo2.Value { return pongo2.AsValue(v.String() + "!") }
+func (t TStruct) Fail() (string, error)                { return "", errors.New("failed") }
+func (t TStruct) Two() (string, error)                 { return "two", nil }
 func (t *TStruct) PtrName() string {
 	if t == nil {
 		return "p:nil"
